@@ -25,9 +25,9 @@ ASSUMPTIONS = [
     'reference layout = checks/layouts.py (written from the CAMx user guide, '
     'no library code)',
     'writers: the gridded average/emissions (uamiv) writer and the one3d / '
-    'temperature / height_pressure / wind writers (checks/metwrite.py: real writer '
+    'temperature / height_pressure / wind / cloud_rain writers (checks/metwrite.py: real writer '
     'function on a byte sink, symbolic time flags, concrete payload); '
-    'cloud_rain, lateral_boundary, landuse writers are not encoded. uamiv: '
+    'lateral_boundary, landuse writers are not encoded. uamiv: '
     'its data loop is '
     'executed on a sink that records the byte count and integer value of '
     'every tofile call, with an unbounded cell count and the source dtype '
